@@ -17,7 +17,11 @@ Steps ==
     NIdx(<<Sub1(Lit(1)), Sub1(Lit(0))>>), NIdx(<<Sub2(LastMinus(1), <<NLast>>)>>),
     NFilter(NBin("eq", <<NCur, NKey(KA)>>, Lit(1))),
     NFilter(NUn("exists", <<NCur, NKey(KB)>>)),
-    NFilter(NBin("gt", <<NCur, NAnyArr>>, Lit(0))) }
+    NFilter(NBin("gt", <<NCur, NAnyArr>>, Lit(0))),
+    (* exists over a subscript list / range followed by a filter: a hit followed by a miss and *)
+    (* a miss followed by a hit (the status of the last element visited must not decide)      *)
+    NFilter(NUn("exists", <<NCur, NIdx(<<Sub1(Lit(0)), Sub1(Lit(1))>>), NFilter(NBin("gt", <<NCur>>, Lit(0)))>>)),
+    NFilter(NUn("exists", <<NCur, NIdx(<<Sub2(Lit(0), Lit(1))>>), NFilter(NBin("gt", <<NCur>>, Lit(0)))>>)) }
 
 (* three-step shapes that need all three steps to show a difference: a step  *)
 (* below .** whose leniency must survive an intermediate wildcard/subscript  *)
@@ -45,7 +49,8 @@ CaseAt(p, d, lx) ==
 
 Law_C07(c) ==
   LET r == Eval(c, Par0)
-      P(p, v) == Bool(p, v, [EnvOf(c, Par0) EXCEPT !.cur = v], St0).val = "T"
+      (* a filter condition sees the leniency of its position (below .** structural errors are skipped) *)
+      P(p, v, len) == Bool(p, v, [EnvOf(c, Par0) EXCEPT !.cur = v, !.lenient = len \/ c.path.lax], St0).val = "T"
       o == LevelSem(P, c.path.chain, c.doc, c.path.lax)
   IN \/ r.err = "opaque"
      \/ /\ c.path.lax => r.err = "none"
